@@ -84,7 +84,6 @@ theorem fromfile_line (vs : List α) (l' : Line τ) (rest : File τ) (n : Nat) :
     have hn : (v :: vs).length + n = (vs.length + n) + 1 := by simp; omega
     rw [hn]
     simp only [List.map_cons, List.cons_append, skipWs_cons, fromfile, tokVal_tokV fmt parse ofInt hp, ih]
-    simp
 
 /-- Reading all the numbers of consecutive lines, then going on: line ends are white space. -/
 theorem fromfile_lines (ls : List (List α)) (rest : File τ) (n : Nat) :
@@ -247,7 +246,7 @@ theorem readFactors_factorBlocks (fmt : α → τ) (parse : τ → α) (ofInt : 
     have hsz := importShape_sizeLines (τ := τ) [r, R] (by simp)
       ((chunk R r data).map (fun l => l.map (tokV fmt)) ++ fs.flatMap (factorLines fmt))
     simp only [List.length_cons, List.flatMap_cons, readFactors, factorLines, readline, List.cons_append,
-      List.append_assoc, List.tail_cons, List.headD_cons]
+      List.append_assoc, List.tail_cons, List.headD_cons, rowsOf]
     have hn1 : numel [R] = R := by simp [numel]
     rw [hn1, hsz]
     simp only [hnum, hb, ih, if_true]
@@ -264,5 +263,192 @@ theorem ktensorOk_of_wf (w : List α) (fs : List (NdC α)) (hne : fs ≠ [])
     simp only [ktensorOk, hsh F0 (List.mem_cons_self ..)]
     simp only [Bool.and_eq_true, beq_iff_eq, List.all_eq_true, and_true]
     exact fun F hF => hsh F hF
+
+/-! ### decode ∘ encode, with the subscript offset as a parameter -/
+section
+variable (fmt : α → τ) (parse : τ → α) (ofInt : Int → α) (hp : ∀ v, parse (fmt v) = v)
+include hp
+
+theorem roundtrip_dense (b : Int) (T : Dense α) (h : (Obj.dense T).WF) :
+    decode parse ofInt b (encodeBase fmt b (.dense T)) = .ok (.dense T) := by
+  obtain ⟨shape, data⟩ := T
+  obtain ⟨hs, hd⟩ := h
+  simp only at hs hd
+  have hb := fromfile_block_fst fmt parse ofInt hp (arrayRows data) []
+  rw [arrayRows_flatten] at hb
+  simp only [decode, encodeBase, readline, if_true, decodeDense, importShape_sizeLines shape hs,
+    arrayLines_eq]
+  rw [← hd]
+  simp only [List.append_nil] at hb
+  simp [hb]
+
+theorem roundtrip_matrix (b : Int) (A : NdC α) (h : (Obj.matrix A).WF) :
+    decode parse ofInt b (encodeBase fmt b (.matrix A)) = .ok (.matrix A) := by
+  obtain ⟨shape, data⟩ := A
+  obtain ⟨hs, hd⟩ := h
+  simp only at hs hd
+  have hb := fromfile_block_fst fmt parse ofInt hp (arrayRows data) []
+  rw [arrayRows_flatten] at hb
+  simp only [decode, encodeBase, readline, decodeMatrix, importShape_sizeLines shape hs, arrayLines_eq]
+  rw [← hd]
+  simp only [List.append_nil] at hb
+  simp [hb]
+
+theorem roundtrip_sparse (b : Int) (shape : List Nat) (subs : List (List Int)) (vals : List α)
+    (h : (Obj.sparse shape subs vals).WF) :
+    decode parse ofInt b (encodeBase fmt b (.sparse shape subs vals)) = .ok (.sparse shape subs vals) := by
+  obtain ⟨hs, hlen, hsub⟩ := h
+  have hrow : ∀ s ∈ subs, s.length = shape.length := by
+    intro s hs'
+    have := fits_of_below s shape (hsub s hs')
+    simp only [fits, Bool.and_eq_true, beq_iff_eq] at this
+    exact this.1
+  have hre := readEntries_entryLines fmt parse ofInt hp b shape.length [] subs vals hlen hrow
+  simp only [List.append_nil] at hre
+  have hfit : subs.all (fits shape) = true := by
+    simp only [List.all_eq_true]
+    exact fun s hs' => fits_of_below s shape (hsub s hs')
+  have hsz := importShape_sizeLines (τ := τ) shape hs
+    ([Token.int (subs.length : Int)] :: List.zipWith (entryLine fmt b) subs vals)
+  simp only [decode, encodeBase, readline, decodeSparse, List.append_assoc, List.cons_append, List.nil_append]
+  rw [hsz]
+  simp [firstInt, tokInt, hre, hfit]
+
+theorem roundtrip_ktensor (b : Int) (w : List α) (fs : List (NdC α)) (h : (Obj.ktensor w fs).WF) :
+    decode parse ofInt b (encodeBase fmt b (.ktensor w fs)) = .ok (.ktensor w fs) := by
+  obtain ⟨hR, hne, hF⟩ := h
+  have hsz := importShape_sizeLines (τ := τ) (fs.map fun F => F.shape.headD 0) (by simpa using hne)
+    ([Token.int (w.length : Int)] :: w.map (tokV fmt) :: fs.flatMap (factorLines fmt))
+  have h0 : ([w] : List (List α)).flatten = [] → ([w] : List (List α)) = [] := by
+    intro he
+    have : w = [] := by simpa using he
+    subst this
+    simp at hR
+  have hw := fromfile_block fmt parse ofInt hp [w] (fs.flatMap (factorLines fmt)) h0 (skipWs_factorBlocks fmt fs)
+  simp only [List.flatten_cons, List.flatten_nil, List.append_nil, List.map_cons, List.map_nil,
+    List.cons_append, List.nil_append] at hw
+  have hrf := readFactors_factorBlocks fmt parse ofInt hp w.length hR fs hF
+  have hok := ktensorOk_of_wf w fs hne hF
+  simp only [decode, encodeBase, readline, decodeKtensor, List.append_assoc, List.cons_append, List.nil_append]
+  rw [hsz]
+  simp [firstInt, tokInt, hw, hrf, hok]
+
+end
+
+/-! ### the executable precondition -/
+
+theorem wf_of_wfb : ∀ (o : Obj α), o.wfb = true → o.WF
+  | .dense T, h => by
+    simp only [Obj.wfb, Bool.and_eq_true, Bool.not_eq_true', beq_iff_eq] at h
+    exact ⟨by intro he; simp [he] at h, h.2⟩
+  | .matrix A, h => by
+    simp only [Obj.wfb, Bool.and_eq_true, Bool.not_eq_true', beq_iff_eq] at h
+    exact ⟨by intro he; simp [he] at h, h.2⟩
+  | .sparse shape subs vals, h => by
+    simp only [Obj.wfb, Bool.and_eq_true, Bool.not_eq_true', beq_iff_eq, List.all_eq_true] at h
+    exact ⟨by intro he; simp [he] at h, h.1.2, fun s hs => below_of_fits s shape (h.2 s hs)⟩
+  | .ktensor w fs, h => by
+    simp only [Obj.wfb, Bool.and_eq_true, Bool.not_eq_true', beq_iff_eq, List.all_eq_true,
+      decide_eq_true_eq] at h
+    refine ⟨h.1.1, by intro he; simp [he] at h, ?_⟩
+    intro F hF
+    obtain ⟨⟨h2, h1⟩, hd⟩ := h.2 F hF
+    obtain ⟨shape, data⟩ := F
+    simp only at h2 h1 hd
+    match shape, h2, h1, hd with
+    | [a, c], _, h1, hd =>
+      simp at h1
+      subst h1
+      exact ⟨a, rfl, by simpa using hd⟩
+
+/-! ### matrices given by rows -/
+
+theorem flatten_length_rows (R : Nat) : ∀ (M : Mat α), (∀ row ∈ M, row.length = R) → M.flatten.length = M.length * R
+  | [], _ => by simp
+  | row :: M, h => by
+    have ih := flatten_length_rows R M (fun r hr => h r (List.mem_cons_of_mem _ hr))
+    have h0 := h row (List.mem_cons_self ..)
+    simp only [List.flatten_cons, List.length_append, List.length_cons, ih, h0, Nat.succ_mul]
+    omega
+
+theorem chunk_flatten_rows (R : Nat) : ∀ (M : Mat α), (∀ row ∈ M, row.length = R) → chunk R M.length M.flatten = M
+  | [], _ => rfl
+  | row :: M, h => by
+    have ih := chunk_flatten_rows R M (fun r hr => h r (List.mem_cons_of_mem _ hr))
+    have h0 := h row (List.mem_cons_self ..)
+    simp only [List.flatten_cons, List.length_cons, chunk]
+    rw [List.take_left' h0, List.drop_left' h0, ih]
+
+theorem rowsOf_ofMat (R : Nat) (M : Mat α) (h : ∀ row ∈ M, row.length = R) : rowsOf (ofMat R M) = M := by
+  simp [rowsOf, ofMat, numel, chunk_flatten_rows R M h]
+
+theorem ofKtensor_wf (K : Ktensor α) (hR : 0 < K.weights.length) (hne : K.factors ≠ [])
+    (hrows : ∀ M ∈ K.factors, ∀ row ∈ M, row.length = K.weights.length) : (ofKtensor K).WF := by
+  refine ⟨hR, by simpa [ofKtensor] using hne, ?_⟩
+  intro F hF
+  simp only [List.mem_map] at hF
+  obtain ⟨M, hM, rfl⟩ := hF
+  exact ⟨M.length, rfl, flatten_length_rows _ M (hrows M hM)⟩
+
+/-! ### 1-based subscripts -/
+
+theorem one_based (fmt : α → τ) (shape : List Nat) (subs : List (List Int)) (vals : List α)
+    (hlen : subs.length = vals.length) :
+    (encode fmt (.sparse shape subs vals)).length = 4 + subs.length ∧
+    ∀ (k : Nat) (hk : k < subs.length),
+      ∃ line, (encode fmt (.sparse shape subs vals))[4 + k]? = some line ∧
+        line.length = subs[k].length + 1 ∧
+        (∀ (j : Nat) (hj : j < subs[k].length), line[j]? = some (Token.int (subs[k][j] + 1))) ∧
+        line[subs[k].length]? = some (Token.val (fmt (vals[k]'(hlen ▸ hk)))) := by
+  have henc : encode fmt (.sparse shape subs vals) =
+      [[Token.word "sptensor"], [Token.int shape.length], shape.map (fun (d : Nat) => Token.int (d : Int)),
+        [Token.int subs.length]] ++ List.zipWith (entryLine fmt 1) subs vals := by
+    simp [encode, encodeBase, sizeLines]
+  constructor
+  · rw [henc]; simp [hlen]; omega
+  · intro k hk
+    have hk' : k < vals.length := hlen ▸ hk
+    refine ⟨entryLine fmt 1 subs[k] vals[k], ?_, ?_, ?_, ?_⟩
+    · rw [henc, List.getElem?_append_right (by simp)]
+      simp [List.getElem?_zipWith, hk, hk']
+    · simp [entryLine]
+    · intro j hj
+      simp [entryLine, List.getElem?_append_left, hj]
+    · simp [entryLine, tokV]
+
+/-! ### rejection -/
+
+theorem decode_rejects (parse : τ → α) (ofInt : Int → α) (b : Int) :
+    (∀ (w : String) (l : Line τ) (rest : File τ), w ∉ ["tensor", "sptensor", "matrix", "ktensor"] →
+        decode parse ofInt b ((.word w :: l) :: rest) = .error .reject) ∧
+    (∀ (n : Int) (l : Line τ) (rest : File τ), decode parse ofInt b ((.int n :: l) :: rest) = .error .reject) ∧
+    (∀ (t : τ) (l : Line τ) (rest : File τ), decode parse ofInt b ((.val t :: l) :: rest) = .error .reject) ∧
+    (∀ (rest : File τ), decode parse ofInt b ([] :: rest) = .error .reject) ∧
+    decode parse ofInt b ([] : File τ) = .error .reject ∧
+    (∀ (w : String) (junk0 junk : Line τ) (n : Int) (t : Token τ) (extents : Line τ) (rest : File τ),
+        w ∈ ["tensor", "sptensor", "matrix", "ktensor"] → ((t :: extents).length : Int) ≠ n →
+        decode parse ofInt b ((.word w :: junk0) :: (.int n :: junk) :: (t :: extents) :: rest) = .error .reject) ∧
+    (∀ (w : String) (junk0 junk : Line τ) (n : Int) (rest : File τ),
+        w ∈ ["tensor", "sptensor", "matrix", "ktensor"] →
+        decode parse ofInt b ((.word w :: junk0) :: (.int n :: junk) :: [] :: rest) = .error .reject) := by
+  refine ⟨?_, ?_, ?_, ?_, ?_, ?_, ?_⟩
+  · intro w l rest hw
+    simp only [List.mem_cons, List.not_mem_nil, or_false, not_or] at hw
+    simp [decode, readline, hw.1, hw.2.1, hw.2.2.1, hw.2.2.2]
+  · intro n l rest; simp [decode, readline]
+  · intro t l rest; simp [decode, readline]
+  · intro rest; simp [decode, readline]
+  · simp [decode, readline]
+  · intro w junk0 junk n t extents rest hw hn
+    have hs := importShape_wrong_length n t extents junk rest hn
+    simp only [List.mem_cons, List.not_mem_nil, or_false] at hw
+    rcases hw with rfl | rfl | rfl | rfl <;>
+      simp [decode, readline, decodeDense, decodeSparse, decodeMatrix, decodeKtensor, hs]
+  · intro w junk0 junk n rest hw
+    have hs : importShape ((Token.int n :: junk) :: [] :: rest) = .error .reject := by
+      simp [importShape, readline, firstInt, tokInt]
+    simp only [List.mem_cons, List.not_mem_nil, or_false] at hw
+    rcases hw with rfl | rfl | rfl | rfl <;>
+      simp [decode, readline, decodeDense, decodeSparse, decodeMatrix, decodeKtensor, hs]
 
 end Pyttb.Format
